@@ -19,7 +19,8 @@ LEVEL_TEXT = ("Machine-checked Lean proofs, for every sequence of switches (incl
               "state reports from current, pending, closed and superseded policies, SubConn creation/state/shutdown, resolver "
               "errors and Close: the exact swap rule in both directions, that the channel always holds the latest state of the "
               "policy in use, that no update of a policy that is not current reaches the channel, that closing a policy shuts "
-              "down every SubConn it created and still owns, and that a replaced pending policy is closed on the spot.")
+              "down every SubConn it created and still owns, that a replaced pending policy is closed on the spot, and that a NewSubConn "
+              "call still inside the parent ClientConn when its policy loses its role ends with the SubConn shut down and an error.")
 LEVEL_NOTE = ("Trusted: Lean kernel; hand model lean/GrpcModel/Model/GracefulSwitch.lean tied by differential runs. Readings: "
               "'as soon as … the old one leaves READY' is event-driven in the code and in the theorems: the swap is decided when "
               "a policy REPORTS; a switch started while the old policy is already not READY completes at the next report of "
